@@ -708,9 +708,9 @@ func init() {
 			"of one footer's SegmentLocs (`slocs[0].mref.fref`) - the top-level footer has no segments when only child collections were ever written - but from the tree-aware accessor " +
 			"Footer.mmapRef / Footer.fileRef, the only functions allowed to index SegmentLocs for that purpose (they fall back to the child footers). Reading such an element only to validate " +
 			"it (nil checks) is fine. Found as D21/D22/D23: startOrReuseFile, snapshotPrevious, snapshotRevert and compactMaybe each took the file from slocs[0].",
-		Props: []string{"C11", "C12", "C07", "C20"},
-		Floor: 1,
-		Run:   ruleCov4,
+		Props:      []string{"C11", "C12", "C07", "C20"},
+		Floor:      1,
+		Run:        ruleCov4,
 		Exceptions: []string{"calcPartialCompactionStart: decides about the segment list it was given; slocs[0]'s file is stat'ed only behind compStartIdx > 0 (the list has at least two segments)"},
 	})
 }
